@@ -223,8 +223,9 @@ def gen_rereg_step(rng: random.Random, world, op, ids=None):
     ids = ids or [r["unique_id"] for r in world["rows"]]
     if op == "register_predict":
         rows = _pairs(rng, world, ids, rng.randint(3, 9))
-        for r in rows:
-            pr = rng.choice([0.02, 0.3, 0.5, 0.6, 0.9, 0.97])
+        for k, r in enumerate(rows):
+            # distinct probabilities: which of two equally good links cluster_using_single_best_links keeps is not determined
+            pr = rng.choice([0.02, 0.3, 0.5, 0.6, 0.9, 0.97]) + 0.001 * k
             r["match_probability"], r["match_weight"] = pr, math.log2(pr / (1 - pr))
         return {"op": op, "p": {"rows": rows, "overwrite": True}}
     if op == "register_labels":
@@ -487,6 +488,9 @@ def apply_rereg_op(linker, world, step, state):
         elif op == "best_links_registered":
             if not _with_sources(world):
                 return None  # needs a source dataset column
+            kept = [x["match_probability"] for x in state["reg_predict_rows"] if x["match_probability"] >= p["t"]]
+            if len(set(kept)) < len(kept):
+                return None  # equally good links: the result is not determined (ORDER BY match_probability only), a false alarm under one hash seed
             r = linker.clustering.cluster_using_single_best_links(sdf, duplicate_free_datasets=[f"__splink__input_table_{i}" for i in p["free"]], threshold_match_probability=p["t"])
         else:
             if not any(x["match_probability"] >= p["t"] for x in state["reg_predict_rows"]):
@@ -526,7 +530,9 @@ def apply_rereg_op(linker, world, step, state):
         if p["kind"] == "cumulative_comparisons":
             return canon_table(ba.cumulative_comparisons_to_be_scored_from_blocking_rules_data(
                 table_or_tables=USER_TABLE_NAME, blocking_rules=["l.d = r.d", p["rule"]], link_type="dedupe_only", db_api=api).to_dict(orient="records"))
-        return canon_table(ba.n_largest_blocks(table_or_tables=USER_TABLE_NAME, blocking_rule=p["rule"], link_type="dedupe_only", db_api=api, n_largest=3).as_record_dict())
+        # every block is asked for: which of several equally large blocks are among the n largest is not determined (ORDER BY count
+        # LIMIT n), and comparing a top-3 against a fresh linker's raised a false alarm under one string-hash seed (vp check 6)
+        return canon_table(ba.n_largest_blocks(table_or_tables=USER_TABLE_NAME, blocking_rule=p["rule"], link_type="dedupe_only", db_api=api, n_largest=100000).as_record_dict())
     raise ValueError(op)
 
 
